@@ -71,6 +71,22 @@ def main():
         traceback.print_exc()
         res.mismatch("harness", "exception while driving the implementation", repr(e), "", note=traceback.format_exc()[-1500:])
 
+    # Escalation: a proof obligation or the correspondence is broken but no failing input has been seen yet:
+    # search further (other seeds, same budget) on the implementation before giving up.
+    if (not lean["ok"] or res.corr_mismatch) and not res.violations:
+        for extra in range(1, 4):
+            res2 = C.Result(prop)
+            try:
+                mod.run({"tier": args.tier, "seed": seed + 7919 * extra, "thorough": args.tier == "thorough"}, res2)
+            except Exception:  # noqa: BLE001
+                continue
+            res.evaluations += res2.evaluations
+            res.nontrivial_keys |= res2.nontrivial_keys
+            res.notes.append(f"escalated search with seed {seed + 7919 * extra}: {len(res2.violations)} failing inputs")
+            if res2.violations:
+                res.violations = res2.violations
+                break
+
     known = C.load_known(prop)
     kfind = [k for k in known.get("findings", []) if k["property"] == prop]
 
